@@ -280,6 +280,16 @@ def aggregate(mod, cid, tier, seed, n, nshards, recs, counters, cut, ended, dead
         if s in ("skip", "inc"):
             reasons["%s:%s" % (s, r.get("reason"))] += 1
     done = len(recs)
+    # keep the non-ok records of the last run for triage (git-ignored)
+    try:
+        ldir = os.path.join(VERIF_ROOT, "out", "last")
+        os.makedirs(ldir, exist_ok=True)
+        with open(os.path.join(ldir, "%s.%s.jsonl" % (cid, tier)), "w") as lf:
+            for r in recs:
+                if r.get("status") != "ok":
+                    lf.write(json.dumps(r, default=str) + "\n")
+    except OSError:
+        pass
     lost = n - done - cut
     problems = []
     if ended < nshards or dead:
